@@ -25,6 +25,7 @@ import (
 	"github.com/whoisnian/glb/httpd"
 	"github.com/whoisnian/glb/logger"
 
+	"verif/internal/attrgen"
 	"verif/internal/drv"
 	"verif/internal/logparse"
 	"verif/internal/logrun"
@@ -46,7 +47,13 @@ type ReqSpec struct {
 	Flush string `json:"flush,omitempty"`
 	// Pad: the request URI carries a query parameter of that many bytes (REQ_BEG / REQ_END lines far
 	// beyond the handlers' pooled-buffer limit; the requests after it must log only themselves)
-	Pad    int    `json:"pad,omitempty"`
+	Pad int `json:"pad,omitempty"`
+	// Odd: the path carries raw non-ASCII bytes (recorder path only: a client would escape them).
+	// REQ_BEG and REQ_END report the request target as it was received, not a re-encoded form.
+	Odd bool `json:"odd,omitempty"`
+	// Helper: the response is produced by one of the Store's own helpers instead of WriteHeader/Write:
+	// respond200 | json | redirect | error404 | error500 | std (an http.HandlerFunc wrapped by CreateHandler)
+	Helper string `json:"helper,omitempty"`
 	PV     string `json:"pv"` // panic value kind
 	Remote string `json:"remote,omitempty"`
 }
@@ -56,7 +63,14 @@ func (r ReqSpec) uri() string {
 	if r.Match {
 		base = "/h/"
 	}
-	u := fmt.Sprintf("%s%d?code=%d&body=%v&copy=%v&panic=%s&pv=%s", base, r.N, r.Code, r.Body, r.Copy, r.Panic, r.PV)
+	odd := ""
+	if r.Odd {
+		odd = "\u00e9\u4e16"
+	}
+	u := fmt.Sprintf("%s%d%s?code=%d&body=%v&copy=%v&panic=%s&pv=%s", base, r.N, odd, r.Code, r.Body, r.Copy, r.Panic, r.PV)
+	if r.Helper != "" {
+		u += "&helper=" + r.Helper
+	}
 	if r.Flush != "" {
 		u += "&flush=" + r.Flush
 	}
@@ -80,11 +94,13 @@ func (r ReqSpec) panicsBeforeWrite() bool {
 	case "before":
 		return true
 	case "afterheader":
-		return r.Code == 0 && r.Flush == ""
+		return r.Code == 0 && r.Flush == "" && r.Helper == ""
 	default: // afterbody
-		return r.Code == 0 && !r.Body && r.Flush == ""
+		return r.Code == 0 && !r.Body && r.Flush == "" && r.Helper == ""
 	}
 }
+
+var helperCode = map[string]int{"respond200": 200, "json": 200, "redirect": 307, "error404": 404, "error500": 500, "std": 202}
 
 func (r ReqSpec) wantStatus() int {
 	switch {
@@ -92,6 +108,8 @@ func (r ReqSpec) wantStatus() int {
 		return 404
 	case r.panicsBeforeWrite():
 		return 500
+	case r.Helper != "":
+		return helperCode[r.Helper]
 	case r.Code != 0:
 		return r.Code
 	}
@@ -133,13 +151,17 @@ func panicValue(kind string) any {
 		return http.ErrAbortHandler
 	case "nilerr": // nil-like: a nil pointer whose value-receiver Error method cannot be called
 		return (*valErr)(nil)
+	case "biguint": // above MaxInt64
+		return uint64(1<<63 + 5)
+	case "str80": // a string that begins with the byte 0x80
+		return "\x80 starts with a continuation byte"
 	case "badstructerr": // an error held by value (nothing nil about it) whose Error method panics
 		return badErr{7}
 	}
 	return nil // "nil": panic(nil) → *runtime.PanicNilError
 }
 
-var pvKinds = []string{"string", "error", "wrapped", "int", "struct", "pointer", "nilptr", "bytes", "nil", "wrapabort", "joinabort", "aborttext", "abort", "nilerr", "badstructerr"}
+var pvKinds = []string{"string", "error", "wrapped", "int", "struct", "pointer", "nilptr", "bytes", "nil", "wrapabort", "joinabort", "aborttext", "abort", "nilerr", "badstructerr", "biguint", "str80"}
 
 type valErr struct{ msg string }
 
@@ -177,6 +199,23 @@ func behave(s *httpd.Store) {
 		s.W.Flush()
 	case "flusherr":
 		s.W.FlushError()
+	}
+	switch q.Get("helper") { // the Store's own ways of answering (only generated with code == 0 and no body)
+	case "respond200":
+		s.Respond200([]byte("ok"))
+	case "json":
+		s.RespondJson(map[string]int{"a": 1})
+	case "redirect":
+		s.Redirect("/elsewhere", http.StatusTemporaryRedirect)
+	case "error404":
+		s.Error404("nothing here")
+	case "error500":
+		s.Error500("broken")
+	case "std":
+		httpd.CreateHandler(func(w http.ResponseWriter, r *http.Request) {
+			w.WriteHeader(http.StatusAccepted)
+			w.Write([]byte("std"))
+		})(s)
 	}
 	if code != 0 {
 		s.W.WriteHeader(code)
@@ -369,9 +408,9 @@ func wantPanicMatches(kind, pv string, r rec) string {
 		var want logparse.JV
 		switch x := v.(type) {
 		case string:
-			want = logparse.JV{Kind: "str", Str: x}
+			want = logparse.JV{Kind: "str", Str: attrgen.FFFD(x)} // what a JSON string can recover of invalid UTF-8
 		case error:
-			want = logparse.JV{Kind: "str", Str: x.Error()}
+			want = logparse.JV{Kind: "str", Str: attrgen.FFFD(x.Error())}
 		default:
 			b, _ := json.Marshal(v)
 			want, _ = logparse.DecodeValue(b)
@@ -416,6 +455,13 @@ type wireResult struct {
 }
 
 func runCase(cs Case, st *stats) (key, expected, observed string) {
+	if cs.Wire { // an HTTP client escapes raw non-ASCII path bytes: those requests go out plain
+		reqs := append([]ReqSpec(nil), cs.Reqs...)
+		for i := range reqs {
+			reqs[i].Odd = false
+		}
+		cs.Reqs = reqs
+	}
 	w := recw.New(len(cs.Reqs)*3+16, 0)
 	l := logger.New(logrun.NewHandler(cs.Kind, w, cs.Threshold, false))
 	mux := httpd.NewMux()
@@ -763,6 +809,12 @@ func specKey(r ReqSpec) string {
 	if r.Flush != "" {
 		fl = "," + r.Flush
 	}
+	if r.Helper != "" {
+		fl += ",helper=" + r.Helper
+	}
+	if r.Odd {
+		fl += ",odd"
+	}
 	return fmt.Sprintf("%s,match=%v,code=%d,body=%v,copy=%v,panic=%s,pv=%s%s", r.Method, r.Match, r.Code, r.Body, r.Copy, r.Panic, r.PV, fl)
 }
 
@@ -780,7 +832,7 @@ type mon struct{}
 func (mon) Name() string { return "relay" }
 
 func (mon) Level(string) (string, string) {
-	return "exploration", "requests whose handler behaviour is encoded in the URI (status 200..599 set once or not at all - every single code in a separate sweep -, body or not, optionally W.Flush()/FlushError() on the untouched response, panic before / after header / after body / none, twelve panic value kinds incl. error, wrapped error, errors wrapping / joining / textually equal to http.ErrAbortHandler, typed-nil pointer, panic(nil), []byte; matched and unmatched routes) sent (1) over real loopback HTTP connections to an http.Server running Mux+Relay and (2) through ServeHTTP with a recorder (odd RemoteAddr forms, unknown methods), with 1, 8 and 64 requests in flight, for all three log handlers at thresholds Info, Error and Fatal. Every Write on the log destination is parsed as one record; records are joined with the client's log by request id: exactly one REQ_BEG and REQ_END with the request's method/URI/ip/id, END code == status on the wire, 500 iff panic before any write, one Error record with the panic value iff the handler panicked, no panic escaping Relay. Full behaviour product sequentially + seeded concurrent batches; -race build. distinct_nontrivial = distinct (handler, threshold, path, behaviour) combinations observed"
+	return "exploration", "requests whose handler behaviour is encoded in the URI (status 200..599 set once or not at all - every single code in a separate sweep -, body or not, optionally W.Flush()/FlushError() on the untouched response, or answered through the Store's own helpers (Respond200, RespondJson, Redirect, Error404, Error500, a wrapped http.HandlerFunc), panic before / after header / after body / none, twelve panic value kinds incl. error, wrapped error, errors wrapping / joining / textually equal to http.ErrAbortHandler, typed-nil pointer, panic(nil), []byte; matched and unmatched routes) sent (1) over real loopback HTTP connections to an http.Server running Mux+Relay and (2) through ServeHTTP with a recorder (odd RemoteAddr forms, unknown methods), with 1, 8 and 64 requests in flight, for all three log handlers at thresholds Info, Error and Fatal. Every Write on the log destination is parsed as one record; records are joined with the client's log by request id: exactly one REQ_BEG and REQ_END with the request's method/URI/ip/id, END code == status on the wire, 500 iff panic before any write, one Error record with the panic value iff the handler panicked, no panic escaping Relay. Full behaviour product sequentially + seeded concurrent batches; -race build. distinct_nontrivial = distinct (handler, threshold, path, behaviour) combinations observed"
 }
 
 type shardArgs struct {
@@ -832,6 +884,15 @@ func productReqs() []ReqSpec {
 						if n%37 == 0 {
 							out[len(out)-1].Pad = []int{17000, 20000, 40000}[n%3]
 						}
+						if n%11 == 0 {
+							out[len(out)-1].Odd = true
+						}
+						if match && code == 0 && !body && (pv == "" || pv == pvKinds[1]) {
+							for _, hp := range []string{"respond200", "json", "redirect", "error404", "error500", "std"} {
+								n++
+								out = append(out, ReqSpec{N: n, Method: methodsPool[n%len(methodsPool)], Match: true, Panic: pw, PV: pv, Helper: hp, Remote: remotes[n%len(remotes)]})
+							}
+						}
 						if match && code == 0 && (pv == "" || pv == pvKinds[0] || pv == pvKinds[len(pvKinds)-1]) {
 							for _, fl := range []string{"flush", "flusherr"} {
 								n++
@@ -857,8 +918,15 @@ func randReqs(r *rand.Rand, n int) []ReqSpec {
 			if r.Intn(40) == 0 {
 				rq.Pad = 16000 + r.Intn(30000)
 			}
+			rq.Odd = r.Intn(12) == 0
+			if rq.Code == 0 && !rq.Body && r.Intn(4) == 0 {
+				rq.Helper = []string{"respond200", "json", "redirect", "error404", "error500", "std"}[r.Intn(6)]
+			}
 			if rq.Code == 0 && r.Intn(3) == 0 {
 				rq.Flush = []string{"flush", "flusherr"}[r.Intn(2)]
+			}
+			if rq.Helper != "" {
+				rq.Flush = ""
 			}
 			if r.Intn(2) == 0 {
 				rq.Panic = panicsWhen[1+r.Intn(3)]
